@@ -14,7 +14,7 @@ RULE = ("A = U diag(s) V' with prescribed cond in [1,1e3] and overall scale over
         "distinct by configuration hash")
 ASSUMPTIONS = ["scipy.optimize.lsq_linear (two independent methods cross-checked to 1e-9(1+f*)) is the reference for f*",
                "a case where dfols beats the reference by more than 1e-9(1+f*) indicts the oracle and is inconclusive"]
-N = {"quick": 1400, "thorough": 12000}
+N = {"quick": 3000, "thorough": 20000}
 CASE_TIMEOUT = {"quick": 300, "thorough": 600}
 NSAMPLES = 4
 
@@ -57,6 +57,19 @@ def make_cfg(seed, i):
             x0 = x0 + (hi - lo) * rng.normal(size=n) * 1.5
         if mode == 2:
             args["scaling_within_bounds"] = True
+            args["rhobeg"] = 0.1
+        else:
+            args["rhobeg"] = float(min(0.1 * max(np.max(np.abs(x0)), 1.0), 0.49 * np.min(hi - lo)))
+    if mode >= 1 and r() < 0.25:
+        # wide box with x0 IN A CORNER (every coordinate on one of its bounds) a few units from the unconstrained minimiser:
+        # several of those bounds stay active at the solution, steps slide along faces
+        x0 = xs + rng.normal(size=n) * float(gen.pick(rng, [1.0, 3.0]))
+        width = 2.0 * max(float(np.max(np.abs(x0))), 1.0) + rng.random(n)
+        on_upper = rng.random(n) < 0.5
+        lo = np.where(on_upper, x0 - width, x0)
+        hi = np.where(on_upper, x0, x0 + width)
+        cfg["lower"], cfg["upper"] = lo.tolist(), hi.tolist()
+        if mode == 2:
             args["rhobeg"] = 0.1
         else:
             args["rhobeg"] = float(min(0.1 * max(np.max(np.abs(x0)), 1.0), 0.49 * np.min(hi - lo)))
